@@ -33,6 +33,10 @@ def gen_request(r, n):
     fc = r.choice(REQ_FCS)
     a = (1000 + 37 * n) & 0xFFFF
     if fc in (1, 2, 3, 4):
+        if r.random() < 0.15:
+            # replies up to the largest the specification allows ("all reply contents")
+            big = r.choice([60, 62, 100, 124, 125]) if fc in (3, 4) else r.choice([900, 977, 1500, 1993, 2000])
+            return {'dir': REQ, 'fc': fc, 'address': a, 'count': big}
         return {'dir': REQ, 'fc': fc, 'address': a, 'count': r.randint(1, 6)}
     if fc == 5:
         return {'dir': REQ, 'fc': 5, 'address': a, 'value': r.choice([0, 0xFF00])}
@@ -45,7 +49,7 @@ def gen_request(r, n):
     if fc == 22:
         return {'dir': REQ, 'fc': 22, 'address': a, 'and_mask': gen.word(r), 'or_mask': (n * 3) & 0xFFFF}
     if fc == 23:
-        return {'dir': REQ, 'fc': 23, 'read_address': a, 'read_count': r.randint(1, 4), 'write_address': a + 10, 'registers': [(n * 17) & 0xFFFF]}
+        return {'dir': REQ, 'fc': 23, 'read_address': a, 'read_count': r.choice([1, 2, 3, 4, 70, 125]), 'write_address': a + 10, 'registers': [(n * 17) & 0xFFFF]}
     if fc == 8:
         sub = r.choice([0, 0, 11, 12, 13, 14])
         return {'dir': REQ, 'fc': 8, 'sub': sub, 'data': [(n * 257 + 1) & 0xFFFF]}
